@@ -2064,9 +2064,17 @@ func (r *Raft) installSnapshot(rpc RPC, req *InstallSnapshotRequest) {
 	r.setLatestConfiguration(reqConfiguration, reqConfigurationIndex)
 	r.setCommittedConfiguration(reqConfiguration, reqConfigurationIndex)
 
-	// Clear old logs if r.logs is a MonotonicLogStore. Otherwise compact the
-	// logs. In both cases, log any errors and continue.
-	if mlogs, ok := r.logs.(MonotonicLogStore); ok && mlogs.IsMonotonic() {
+	// A log that contains the snapshot's last entry continues the snapshot: it
+	// may hold entries beyond it that are already committed, and whatever else
+	// follows is sorted out by AppendEntries as usual. Only a log that does
+	// not reach or not match the snapshot would be left with a gap.
+	var snapEntry Log
+	continues := r.logs.GetLog(req.LastLogIndex, &snapEntry) == nil && snapEntry.Term == req.LastLogTerm
+
+	// Clear old logs if r.logs is a MonotonicLogStore that would be left with a
+	// gap. Otherwise compact the logs. In both cases, log any errors and
+	// continue.
+	if mlogs, ok := r.logs.(MonotonicLogStore); ok && mlogs.IsMonotonic() && !continues {
 		if err := r.removeOldLogs(); err != nil {
 			r.logger.Error("failed to reset logs", "error", err)
 		} else {
